@@ -57,7 +57,23 @@ def _energy(ctx, tmp):
                             [QPointWeight(tuple(wcoords[j]), float(wts[j])) for j in range(nq)],
                             [VolumeData(float(P[a]), float(V[a]), float(E[a]),
                                         [QPointData(tuple(coords[j]), [float(x) for x in freqs[a, j]]) for j in range(nq)]) for a in range(nv)])
-        path = os.path.join(tmp, f"in01-{i}")
+        # history: one file name is written and read again and again, often with data sets of identical shape
+        # (the fixed-width writer then produces files of identical size)
+        if i % 2:
+            nv, nq, na = 3, 2, 2
+            np_ = 6
+            P, V, E = _vals(rng, nv, 6), numpy.abs(_vals(rng, nv, 6)) + 1e-3, _vals(rng, nv, 6)
+            coords = _vals(rng, (nq, 3), 4) / 10 ** rng.integers(0, 5)
+            freqs = _vals(rng, (nv, nq, np_), 6)
+            wts = numpy.abs(_vals(rng, nq, 6))
+            wcoords = _vals(rng, (nq, 3), 6) / 10 ** rng.integers(0, 5)
+            data = QHAInputData(nv, nq, np_, nm, na,
+                                [QPointWeight(tuple(wcoords[j]), float(wts[j])) for j in range(nq)],
+                                [VolumeData(float(P[a]), float(V[a]), float(E[a]),
+                                            [QPointData(tuple(coords[j]), [float(x) for x in freqs[a, j]]) for j in range(nq)]) for a in range(nv)])
+            path = os.path.join(tmp, "input01-reused")
+        else:
+            path = os.path.join(tmp, f"in01-{i}")
         comment = ["QHA Input data", "made by test 7", "x=1 y=2"][i % 3]
         try:
             if i % 3 == 0:
@@ -74,9 +90,9 @@ def _energy(ctx, tmp):
                 ctx.harness_error("C17.energy", exc)
             continue
         finally:
-            if os.path.exists(path):
+            if os.path.exists(path) and not path.endswith("-reused"):
                 os.unlink(path)
-        ctx.evaluation("phonon-write-read", (nv, nq, np_, i), sample={"nv": nv, "nq": nq, "np": np_, "nm": nm, "na": na, "V[0]": V[0], "freq[0,0,0]": freqs[0, 0, 0]})
+        ctx.evaluation("phonon-write-read" + ("|same-path-rewritten" if path.endswith("-reused") else ""), (nv, nq, np_, i), sample={"nv": nv, "nq": nq, "np": np_, "nm": nm, "na": na, "V[0]": V[0], "freq[0,0,0]": freqs[0, 0, 0]})
 
         def judge(tag, counts, vols, wl):
             if tuple(counts) != (nv, nq, np_, nm, na):
